@@ -263,7 +263,7 @@ class Run:
         self.assumptions: list[str] = []
         self.extra: dict = {}
         self.known_matchers = {}              # finding id -> predicate(violation) -> bool
-        self.max_keep = 50
+        self.max_keep = 400
 
     # -- recording --
     def note_case(self, key: str, nontrivial: bool, sample=None, size=None, tags=()):
